@@ -33,6 +33,8 @@ LEAF_SHAPES = {
 
 def string_images(reps):
     """Per-character image under a chain of single-character replacements: {char: rendered text}."""
+    if isinstance(reps, dict):
+        return dict(reps)      # observed images
     img = {}
     for p, _ in reps:
         t = p
@@ -79,6 +81,8 @@ def check_string_decoding(run, pr):
             ok = t == p and t not in ('"', "\\")
         elif len(t) == 2 and t[0] == "\\":
             ok = REF_ESCAPES.get(t[1]) == p
+        elif re.fullmatch(r"\\u\{[0-9a-fA-F]{1,6}\}", t):
+            ok = int(t[3:-1], 16) == ord(p)
         else:
             ok = False
         if not ok:
@@ -146,13 +150,25 @@ def enum_fields(expr_src):
 
 
 class Printer:
-    def __init__(self, run, syn):
+    def __init__(self, run, syn, helper=None):
         self.syn = syn
         src = run.read("src/expr/mod.rs")
-        self.templates, self.helpers = display_templates(src)
         self.fields = enum_fields(src)
         self.lx = lexer.from_grammar(syn.g)
-        self.vdisp = value_display(run.read("src/value/mod.rs"))
+        self.origin = "source"
+        try:
+            self.templates, self.helpers = display_templates(src)
+            self.vdisp = value_display(run.read("src/value/mod.rs"))
+        except EncodingError as e:
+            if helper is None:
+                raise
+            # the Display impls are not of a shape the source extractor understands: observe the real printer instead
+            run.notes.append(f"Display templates observed by executing the real printer on marker expressions (source shape not understood: {e})")
+            run.assumptions.append("the printer is compositional (a node's rendering = fixed text around its children's renderings, a child "
+                                   "possibly wrapped in parentheses depending on its kind): observed on all (parent, position, child kind) "
+                                   "combinations at depth 2 and spot-checked at depth 3, not derived from the source text")
+            self.templates, self.helpers, self.vdisp = observed_templates(self.fields, helper)
+            self.origin = "observed"
         install_leaf_shapes(self.vdisp)
         self.chain = unit_chain(syn.g)           # loosest .. tightest (Term)
         self.levels = list(reversed(self.chain))  # tightest first
@@ -922,3 +938,150 @@ def string_render_harnesses(tier):
                           stubs=[], meta={"leaf": "Value::String", "domain": f"every ASCII string of {n} character(s)",
                                           "oracle": "Kani: canonical rendering; native replay: the real print -> parse round trip"}))
     return hs
+
+
+# ---------------------------------------------------------------------------------------------------------------
+def base_spec(kind, fields, tag="q", child_override=None, index_num=False, nitems=1):
+    """JSON tree spec of a node of `kind` whose sub-expressions are marker references z<tag>0, z<tag>1, .."""
+    spec = {"k": kind}
+    kids = []
+    k = 0
+    for i, f in enumerate(fields):
+        if f == "expr":
+            kids.append(child_override.get(k) if child_override and k in child_override else {"k": "Reference", "n": f"z{tag}{k}"})
+            k += 1
+        elif f == "name":
+            spec["n"] = "zn0"
+        elif f == "index":
+            spec["i"] = {"n": 4242} if index_num else {"f": "zn0"}
+        elif f == "list":
+            kids = [{"k": "Reference", "n": f"z{tag}{j}"} for j in range(nitems)]
+        elif f == "map":
+            spec["m"] = [[f"zk{j}", {"k": "Reference", "n": f"z{tag}{j}"}] for j in range(nitems)]
+        elif f == "value":
+            spec["v"] = {"t": "Int", "v": "7"}
+    if kids:
+        spec["c"] = kids
+    return spec
+
+
+def observed_templates(fields, helper):
+    """Templates and wrap sets read off the real printer's output on marker expressions."""
+    kinds = [k for k in fields]
+    alone = {}
+    specs = [base_spec(k, fields[k], tag="r") for k in kinds]
+    for k, r in zip(kinds, helper.render_specs(specs)):
+        alone[k] = r
+    templates, helpers = {}, {}
+    for K in kinds:
+        fl = fields[K]
+        if "list" in fl or "map" in fl:
+            r0, r1, r2 = helper.render_specs([base_spec(K, fl, nitems=n) for n in (0, 1, 2)])
+            if "list" in fl:
+                a, b = r1.split("zq0")
+                mid = r2[len(a) + 3:r2.index("zq1")]
+                if r0 != a + b or not r2.endswith("zq1" + b):
+                    raise EncodingError(f"list rendering of {K} not understood: {r0!r} {r1!r} {r2!r}")
+                templates[K] = [("lit", a), ("list", 0, mid), ("lit", b)]
+            else:
+                a = r1[:r1.index("zk0")]
+                kv = r1[r1.index("zk0") + 3:r1.index("zq0")]
+                b = r1[r1.index("zq0") + 3:]
+                mid = r2[r2.index("zq0") + 3:r2.index("zk1")]
+                if r0 != a + b:
+                    raise EncodingError(f"map rendering of {K} not understood: {r0!r} {r1!r} {r2!r}")
+                templates[K] = [("lit", a), ("maplist", 0, mid, kv), ("lit", b)]
+            continue
+        variants = [False, True] if "index" in fl else [False]
+        pieces_v = []
+        for num in variants:
+            t0 = helper.render_specs([base_spec(K, fl, index_num=num)])[0]
+            pieces_v.append(t0)
+        t0 = pieces_v[0]
+        # split the base rendering at the markers
+        marks = []
+        for i, f in enumerate(fl):
+            if f == "expr":
+                marks.append((f"zq{sum(1 for x in fl[:i] if x == 'expr')}", ("child", i)))
+            elif f in ("name", "index"):
+                marks.append(("zn0", ("field", i)))
+            elif f == "value":
+                marks.append(("i7" if "i7" in t0 else "7", ("field", i)))
+        pos = []
+        for m, what in marks:
+            if t0.count(m) != 1:
+                raise EncodingError(f"marker {m} occurs {t0.count(m)} times in the rendering {t0!r} of {K}")
+            pos.append((t0.index(m), m, what))
+        pos.sort()
+        pieces, cur = [], 0
+        for at, m, what in pos:
+            if at > cur:
+                pieces.append(("lit", t0[cur:at]))
+            pieces.append(("child", what[1], None))
+            cur = at + len(m)
+        if cur < len(t0):
+            pieces.append(("lit", t0[cur:]))
+        if "index" in fl and pieces_v[1] != t0.replace("zn0", "4242"):
+            raise EncodingError(f"numeric index rendering of {K} differs in shape: {pieces_v[1]!r} vs {t0!r}")
+        # child-kind dependent parentheses
+        nexpr = sum(1 for f in fl if f == "expr")
+        for p in range(nexpr):
+            reqs = [base_spec(K, fl, child_override={p: base_spec(C, fields[C], tag="r")}) for C in kinds]
+            outs = helper.render_specs(reqs)
+            wrapped = set()
+            for C, t in zip(kinds, outs):
+                plain = t0.replace(f"zq{p}", alone[C])
+                paren = t0.replace(f"zq{p}", "(" + alone[C] + ")")
+                if t == plain:
+                    continue
+                if t == paren:
+                    wrapped.add(C)
+                else:
+                    raise EncodingError(f"rendering of {K} with a {C} child at position {p} is neither the child's rendering nor that in "
+                                        f"parentheses: {t!r}")
+            if wrapped:
+                hname = f"wrap_{K}_{p}"
+                helpers[hname] = wrapped
+                fi = [i for i, f in enumerate(fl) if f == "expr"][p]
+                pieces = [("child", fi, hname) if (pc[0] == "child" and pc[1] == fi) else pc for pc in pieces]
+        templates[K] = pieces
+    # depth-3 spot check of compositionality: a node over a node over markers
+    for K in kinds[:]:
+        fl = fields[K]
+        if sum(1 for f in fl if f == "expr") < 1 or "list" in fl or "map" in fl:
+            continue
+        inner = {"k": "Neg", "c": [base_spec("BitAnd", fields["BitAnd"], tag="s")]} if "Neg" in fields and "BitAnd" in fields else None
+        if inner is None:
+            break
+        got, r_inner = helper.render_specs([base_spec(K, fl, child_override={0: inner}), inner])
+        t0 = helper.render_specs([base_spec(K, fl)])[0]
+        if got not in (t0.replace("zq0", r_inner), t0.replace("zq0", "(" + r_inner + ")")):
+            raise EncodingError(f"printer is not compositional at depth 3 for {K}: {got!r}")
+    # ---- literal leaves
+    def lit(t, v):
+        return {"k": "Value", "v": {"t": t, "v": v}}
+    r = helper.render_specs([lit("Int", "7"), lit("Float", "2.5"), lit("Decimal", "2.5"), lit("Bool", True), lit("None", None), lit("String", "")])
+    vd = {}
+    for name, text, payload in (("Int", r[0], "7"), ("Float", r[1], "2.5"), ("Decimal", r[2], "2.5"), ("Bool", r[3], "true")):
+        if text.count(payload) != 1:
+            raise EncodingError(f"rendering {text!r} of a {name} literal does not contain its payload once")
+        vd[name] = {"prefix": text[:text.index(payload)], "suffix": text[text.index(payload) + len(payload):], "payload": True, "replaces": []}
+    vd["None"] = {"prefix": r[4], "suffix": "", "payload": False, "replaces": []}
+    q = r[5]
+    if len(q) % 2:
+        raise EncodingError(f"rendering of the empty string {q!r} is not a pair of delimiters")
+    pre, suf = q[:len(q) // 2], q[len(q) // 2:]
+    chars = [chr(c) for c in range(1, 128)] + ["\u00e9", "\u2028", "\U0001F600", "\u0085"]
+    outs = helper.render_specs([lit("String", c) for c in chars] + [lit("String", "ab\"c\\d")])
+    images = {}
+    for c, t in zip(chars, outs):
+        if not (t.startswith(pre) and t.endswith(suf)):
+            raise EncodingError(f"string rendering {t!r} lost its delimiters")
+        body = t[len(pre):len(t) - len(suf)]
+        if body != c:
+            images[c] = body
+    want = pre + "".join(images.get(c, c) for c in "ab\"c\\d") + suf
+    if outs[-1] != want:
+        raise EncodingError(f"string rendering is not character-wise: {outs[-1]!r} vs {want!r}")
+    vd["String"] = {"prefix": pre, "suffix": suf, "payload": True, "replaces": images}
+    return templates, helpers, vd
